@@ -4,7 +4,7 @@ Copies <worktree>/seed/{patch.diff,demo,NOTES.md} to /verif/seeded/<ID>/ and wri
 import json, os, shutil, sys, subprocess
 pid, wt, caught, sigs = sys.argv[1:5]
 note = sys.argv[5] if len(sys.argv) > 5 else ""
-dst = os.path.join("/verif/seeded", pid)
+dst = os.path.join("/verif/seeded", pid + os.environ.get("SEED_SUFFIX", ""))
 if os.path.isdir(dst):
     shutil.rmtree(dst)
 os.makedirs(dst)
